@@ -34,6 +34,8 @@ const (
 	RSyncPool     = 6
 	RRemoteRemove = 7 // slot fam idx | annotated: addr (0 = nothing removed)
 	RMetaSync     = 8 // slot
+	RRaceDispose  = 9 // slot n : the next allocation attempt on this slot is followed at once by Dispose(n)
+	//                    (a balancer pass racing with the hand-out, before the goroutine that commits it can run)
 	// observations
 	EReply     = 10 // rid ok eni a4 a6 own4 own6
 	ECallBegin = 11 // slot kind n4 n6 nips ips...
@@ -152,6 +154,7 @@ type World struct {
 	cancels  map[int]context.CancelFunc
 	held     map[int][3]int // pod -> eni a4 a6 of its latest successful reply
 	addUID   map[int]int    // pod -> uid generation under which its allocation was acknowledged (set by the service harness)
+	raceDispose map[int]int // slot -> n of the Dispose that races with the next allocation attempt
 	inflight map[int]int    // pod -> requests without a reply yet
 	ctx      context.Context
 	cancel   context.CancelFunc
@@ -493,8 +496,30 @@ func (n *slotNI) Allocate(ctx context.Context, cni *daemon.CNI, request eni.Reso
 	}
 	rec := []int{EAttempt, n.slot, rid, PodNum(cni.PodID), nc, pin, erdma, 0, 0, 0, 0}
 	w.push(rec) // position reserved before the call; accepted/reason are filled in below (same backing array)
+	race := 0
+	if nc == 0 { // not for the balancer's own pre-heat requests: its pass has its own Dispose calls
+		race = w.raceDispose[n.slot]
+		delete(w.raceDispose, n.slot)
+	}
 	w.mu.Unlock()
+	var sig chan struct{}
+	if race > 0 {
+		// a balancer pass hits the interface right after Allocate returned: whatever Allocate reserved for the pod must
+		// already be out of Dispose's reach. The pass runs in its own goroutine (as the balancer does): the goroutine
+		// that commits the hand-out holds the interface lock until this caller has read its answer.
+		before := n.l.VerifSnapshot()
+		sig = make(chan struct{})
+		w.bg.Add(1)
+		go func() {
+			defer w.bg.Done()
+			<-sig
+			n.disposeFrom(before, race)
+		}()
+	}
 	ch, tr := n.l.Allocate(ctx, cni, request)
+	if sig != nil {
+		close(sig)
+	}
 	reason := 0
 	if ch == nil && len(tr) > 0 {
 		reason = map[eni.ConditionType]int{eni.ResourceTypeMismatch: 1, eni.NetworkInterfaceMismatch: 2, eni.Full: 3, eni.InsufficientVSwitchIP: 4}[tr[0].Condition]
@@ -549,7 +574,11 @@ func deletingSet(ips []eni.VerifIP) map[int]bool {
 }
 
 func (n *slotNI) Dispose(k int) int {
-	before := n.l.VerifSnapshot()
+	return n.disposeFrom(n.l.VerifSnapshot(), k)
+}
+
+// disposeFrom runs Dispose(k) and records what it marked, relative to the snapshot before.
+func (n *slotNI) disposeFrom(before eni.VerifSnap, k int) int {
 	// the record's position is reserved before the call (the call's broadcast may start cloud calls);
 	// its contents are filled in afterwards
 	w := n.w
@@ -593,7 +622,7 @@ var typeNames = []string{"secondary", "trunk", "erdma"}
 func NewWorld(cfg Config) *World {
 	eni.VerifSetRateLimit(rate.Inf)
 	w := &World{cfg: cfg, t0: time.Now(), cloud: map[int]*cloudENI{}, rids: map[*eni.LocalIPRequest]int{}, nextRid: 1000,
-		cancels: map[int]context.CancelFunc{}, held: map[int][3]int{}, addUID: map[int]int{}, inflight: map[int]int{}, FailRelease: map[int]bool{}}
+		cancels: map[int]context.CancelFunc{}, held: map[int][3]int{}, addUID: map[int]int{}, raceDispose: map[int]int{}, inflight: map[int]int{}, FailRelease: map[int]bool{}}
 	w.ctx, w.cancel = context.WithCancel(context.Background())
 	pc := &daemon.PoolConfig{BatchSize: cfg.Batch, MaxIPPerENI: cfg.Cap, EnableIPv4: cfg.On4, EnableIPv6: cfg.On6}
 	var nis []eni.NetworkInterface
@@ -836,6 +865,10 @@ func (w *World) quiesce() {
 
 func (w *World) Alloc(rid, pod, pin int, precancel bool) {
 	w.mu.Lock()
+	if precancel {
+		// a racing Dispose is only played against a request whose caller waits for the answer
+		w.raceDispose = map[int]int{}
+	}
 	if w.inflight[pod] > 0 { // one request per pod at a time (the daemon's pending set)
 		w.mu.Unlock()
 		return
@@ -879,6 +912,9 @@ func (w *World) Alloc(rid, pod, pin int, precancel bool) {
 		w.mu.Unlock()
 	}()
 	w.quiesce()
+	w.mu.Lock()
+	w.raceDispose = map[int]int{} // armed for this request only
+	w.mu.Unlock()
 }
 
 func (w *World) Cancel(rid int) {
@@ -970,6 +1006,14 @@ func (w *World) RemoteRemove(slot, fam, idx int) {
 		}
 	}
 	w.ev(RRemoteRemove, slot, fam, idx, removed)
+	w.quiesce()
+}
+
+func (w *World) RaceDispose(slot, n int) {
+	w.ev(RRaceDispose, slot, n)
+	w.mu.Lock()
+	w.raceDispose[slot] = n
+	w.mu.Unlock()
 	w.quiesce()
 }
 
